@@ -556,3 +556,51 @@ func (r *run) timeoutLimitScenario(s *gocql.Session, pool *node.ServerConn, rep 
 	r.silent = false
 	r.mu.Unlock()
 }
+
+// cancelInBuildScenario: on a connection that writes through the direct (non-coalescing) writer, a
+// systematic stream of requests whose context ends between exec's entry check and the writer's select,
+// with the write semaphore free: the select may take either ready branch. Every one of them must end
+// with the context's error and leave nothing behind; a plain request afterwards must complete, and
+// closing the connection must unblock whoever is still inside exec.
+func (r *run) cancelInBuildScenario(s *gocql.Session, pool *node.ServerConn, poolConn *gocql.Conn, rep *Report, viol violFn) {
+	h := r.h
+	for i := 0; i < h.CancelInBuild; i++ {
+		ctx, cancel := context.WithCancel(context.Background())
+		var err error
+		ok := watchdog(5*time.Second, func() { err = gocql.VerifC06ExecCancelInBuild(poolConn, ctx, cancel) })
+		cancel()
+		if !ok {
+			viol("caller-hang", "", "request %d whose context ended inside frame building did not return within 5s\n%s", i, goroutineDump())
+			return
+		}
+		if cl := classify(err); cl != "ctx" {
+			viol("outcome", "", "request %d whose context ended inside frame building ended with %s (%v), not with the context's error", i, cl, err)
+		}
+	}
+	rep.NonTriv = true
+	// the connection must be as good as new
+	for j := 0; j < 3; j++ {
+		tok := tokenOf(h.Index, j)
+		var res CallerResult
+		done := make(chan struct{})
+		go func() { res = doQuery(s, context.Background(), tok); close(done) }()
+		select {
+		case <-done:
+		case <-time.After(5 * time.Second):
+			viol("caller-hang", "", "after %d requests cancelled inside frame building, a plain request did not complete within 5s (it is blocked inside exec)\n%s", h.CancelInBuild, goroutineDump())
+			// closing the connection must unblock it
+			poolConn.Close()
+			select {
+			case <-done:
+			case <-time.After(5 * time.Second):
+				viol("close-does-not-unblock", "", "Conn.Close did not unblock the caller within 5s")
+			}
+			return
+		}
+		r.checkResult(res, rep, viol, "")
+		if res.Class != "ok" {
+			viol("outcome", "", "caller %s: plain request after the cancelled ones ended with %s (%s)", tok, res.Class, res.Err)
+		}
+		rep.Results = append(rep.Results, res)
+	}
+}
